@@ -210,7 +210,8 @@ Definition c06_verdict (c : c06_case) : verdict :=
     (* the regular expression is an oracle (its matches are [spans]); everything find_all_links does with the
        matches is modelled: parse, default-scheme re-parse, scheme filter, error handler, text assembly *)
     let O := mk_oracles o in
-    (agree_res items_eqb (m_links O false ds schemes t spans) plain &&
+    (spans_okb (length t) 0 spans &&
+     agree_res items_eqb (m_links O false ds schemes t spans) plain &&
      agree_res items_eqb (m_links O true ds schemes t spans) withtext,
      match plain with
      | Raise (OtherExn 7) => true             (* text with lone surrogates: only "did not raise" was observed *)
